@@ -30,8 +30,9 @@ Inductive op :=
 | OIncoming (p : nat)                                  (* scripted: p dials S, identity arrives, handleConn launched *)
 | OIncomingFail (p : nat)                              (* scripted: p dials S and dies before its identity arrives *)
 | OCrash (p : nat)
-| OCrashSending (p : nat)                              (* real transports: p is stopped and, after its closed flag is set,
-                                                          one of its goroutines still sends to S *)
+| OCrashSending (p : nat) (seen : bool)                (* real transports: p is stopped and, after its closed flag is set,
+                                                          one of its goroutines still sends to S; [seen]: the identity
+                                                          of that dial reached S before the connection went away *)
 | OAbandonedDial (p : nat) (closes : bool)             (* scripted: the dead p's last dial reaches S; identity arrives;
                                                           p never uses the connection, closes it or not *)
 | ORestart (p : nat)
@@ -204,11 +205,11 @@ Definition exec (x : xstate) (o : op) : xstate * option bool * bool :=
       | Some s1 => (settle (with_st x s1), None, false)
       | None => (x, None, true)
       end
-  | OCrashSending p =>
+  | OCrashSending p seen =>
       if negb (listening s p) then (x, None, true) else
       match step s (ACrash p) with
       | Some s1 =>
-          match step s1 (AAcceptClosing code_fixed_F11 p) with
+          match step s1 (if seen then AAcceptClosing code_fixed_F11 p else AAcceptFail p) with
           | Some s2 =>
               match step s2 (ALaunchInc (nextc s1)) with
               | Some s3 => (settle (with_st x s3), None, false)
@@ -442,7 +443,7 @@ Definition truth_step (t : truth) (o : op) (skipped : bool) : truth :=
   if skipped then t else
   match o with
   | OCrash p => mkTruth (p :: t_down t) (t_closed t) (t_holding t) (t_abandoned t)
-  | OCrashSending p => mkTruth (p :: t_down t) (t_closed t) (t_holding t) (t_abandoned t)
+  | OCrashSending p _ => mkTruth (p :: t_down t) (t_closed t) (t_holding t) (t_abandoned t)
   | OAbandonedDial p closes =>
       (* scripted environment: a peer that keeps a dead connection open is outside the property *)
       mkTruth (t_down t) (t_closed t) (t_holding t) (if closes then t_abandoned t else p :: t_abandoned t)
@@ -559,7 +560,7 @@ Fixpoint check_real (is_tcp : bool) (nhand : nat) (t : truth) (prev : csnap) (hs
            | Some (p, n, dh, tainted) => send_clauses is_tcp t p n true (tainted || t_holding t) tainted dh dn r
            | None => []
            end
-       | OCrash p, _ | OCrashSending p, _ =>
+       | OCrash p, _ | OCrashSending p _, _ =>
            if negb (t_holding t) && negb (t_closed t) then
              clause 2 (nth_nat (ctab b) p =? 0) ++
              clause 3 ((nth_nat (ctab prev) p =? 0) ||
